@@ -9,7 +9,8 @@ from vf import adapter, linegram as lg, rops
 from vf.core import Violation, case_hash
 
 RULE = (
-    "versions: exhaustive grid opcode x (every field of its family) x declared version 1..8 and no pragma; the "
+    "versions: exhaustive grid opcode x (every field of its family) x declared version 1..8 and no pragma "
+    "(the array-field opcodes also in their short spelling, `gitxn 0 Logs 0` = gitxna); the "
     "'not supported' lines on stderr must flag exactly the lines whose opcode or field (txn, global, "
     "asset_holding, asset_params, app_params, acct_params families) was introduced after the declared version, "
     "with the right introduction version. mode: random mixtures of opcodes; Teal.mode must be the mode of the "
@@ -31,8 +32,20 @@ SAMPLE = {
 CHECKED_FAMILIES = ("txnf", "txnaf", "globalf", "aholdf", "aparamf", "appparamf", "acctparamf")
 
 
+# the assembler accepts the array-field opcodes under the name of their scalar sibling with one more
+# immediate (`gitxn 0 Logs 0` is `gitxna 0 Logs 0`): "<long name>@short" denotes that spelling
+SHORT_SPELLING = {"txna": "txn", "gtxna": "gtxn", "gtxnsa": "gtxns", "itxna": "itxn", "gitxna": "gitxn"}
+
+
+def base(name):
+    return name.split("@")[0]
+
+
 def op_line(name, field=None, curve=None):
     """-> (text, decoded immediates, field name or None, family)"""
+    if name.endswith("@short"):
+        text, vals, fld, fam = op_line(base(name), field, curve)
+        return " ".join([SHORT_SPELLING[base(name)]] + text.split(" ")[1:]), vals, fld, fam
     op = rops.OPS[name]
     toks, vals, fld, fam = [], [], None, None
     for kind in op.imm:
@@ -65,6 +78,8 @@ def version_cases():
         for f in fields:
             for v in [None, 1, 2, 3, 4, 5, 6, 7, 8]:
                 out.append({"name": name, "field": f, "version": v})
+                if name in SHORT_SPELLING:
+                    out.append({"name": name + "@short", "field": f, "version": v})
     return out
 
 
@@ -87,7 +102,7 @@ def flagged(stderr: str):
 
 def check_version(case, skip_global=False):
     name, field, v = case["name"], case["field"], case["version"]
-    op = rops.OPS[name]
+    op = rops.OPS[base(name)]
     text, vals, fld, fam = op_line(name, field)
     lines = ([f"#pragma version {v}"] if v is not None else []) + [text, "l1:", "l2:", "int 1"]
     src = "\n".join(lines) + "\n"
@@ -112,6 +127,11 @@ def check_version(case, skip_global=False):
     if set(got) != set(exp):
         raise Violation("unsupported-flag", f"declared version {declared}: flagged lines {got}, expected {exp}\n{src}")
     for l, e in exp.items():
+        if name.endswith("@short") and fld is not None and got[l][1] == e[1] and got[l][2] > declared and \
+                got[l][2] in (op.version, rops.FIELD_FAMILIES[fam][fld]):
+            # short spelling: the line may be reported through the field (introduced with or after the
+            # array opcode) or through the opcode; both name a version the line really needs
+            continue
         if got[l][2] != e[2] or got[l][1] != e[1]:
             raise Violation("unsupported-flag-version", f"line {l}: reported {got[l]}, expected {e}\n{src}")
     return {"nontrivial": bool(exp), "key": case_hash(src), "features": [f"v{declared}", "field" if fld else "plain"]}
@@ -120,6 +140,8 @@ def check_version(case, skip_global=False):
 # ------------------------------------------------------------------ mode
 STRAIGHT = [n for n, o in rops.OPS.items() if o.kind in ("compute", "shuffle") and o.certain and n not in ("intcblock", "bytecblock")]
 MODAL = [n for n in STRAIGHT if rops.OPS[n].mode != "A"]
+STRAIGHT_M = STRAIGHT + [n + "@short" for n in SHORT_SPELLING if n in STRAIGHT]
+MODAL_M = MODAL + [n + "@short" for n in SHORT_SPELLING if n in MODAL] * 3
 
 
 @st.composite
@@ -128,13 +150,13 @@ def mode_case(draw):
     names = []
     for _ in range(n):
         k = draw(st.integers(0, 5))
-        names.append(draw(st.sampled_from(MODAL)) if k == 0 else draw(st.sampled_from(STRAIGHT)))
+        names.append(draw(st.sampled_from(MODAL_M)) if k == 0 else draw(st.sampled_from(STRAIGHT_M)))
     dead = []
     if draw(st.integers(0, 2)) == 0:
         # mode-specific opcodes that sit in unreachable code still make the program mode-specific:
         # the AVM validates every opcode of the program against the run mode before executing it
         for _ in range(draw(st.integers(1, 3))):
-            dead.append(draw(st.sampled_from(MODAL)) if draw(st.booleans()) else draw(st.sampled_from(STRAIGHT)))
+            dead.append(draw(st.sampled_from(MODAL_M)) if draw(st.booleans()) else draw(st.sampled_from(STRAIGHT_M)))
     return {"names": names, "dead": dead}
 
 
@@ -150,7 +172,7 @@ def check_mode(case):
         for nm in dead:
             lines.append(op_line(nm)[0])
     src = "\n".join(lines) + "\n"
-    modes = [rops.OPS[nm].mode for nm in list(case["names"]) + list(dead)]
+    modes = [rops.OPS[base(nm)].mode for nm in list(case["names"]) + list(dead)]
     first = next((m for m in modes if m != "A"), "A")
     want_mode = {"A": ExecutionMode.ANY, "S": ExecutionMode.STATELESS, "P": ExecutionMode.STATEFUL}[first]
     try:
@@ -180,7 +202,7 @@ def check_mode(case):
     as_lsig = txn.logic_sig is not None
     if as_app != (first == "P") or as_lsig == as_app:
         raise Violation("analysed-as", f"application={as_app} logic_sig={as_lsig}, expected application={first == 'P'}\n{src}")
-    return {"nontrivial": first != "A", "key": case_hash(src), "features": [f"first={first}", "mixture" if ("S" in modes and "P" in modes) else "pure"] + (["modal_in_dead_code"] if any(rops.OPS[n].mode != "A" for n in dead) else [])}
+    return {"nontrivial": first != "A", "key": case_hash(src), "features": [f"first={first}", "mixture" if ("S" in modes and "P" in modes) else "pure"] + (["modal_in_dead_code"] if any(rops.OPS[base(n)].mode != "A" for n in dead) else []) + (["array_field_short_spelling"] if any("@" in n for n in list(case["names"]) + list(dead)) else [])}
 
 
 # ------------------------------------------------------------------ cost
